@@ -88,6 +88,9 @@ mut('c10-empty-panics', 'C10', 'src/backend.rs', "                    Message::M
 # ---------------------------------------------------------------- C14 cancellation
 mut('c14-req-take-back', 'C14', 'src/req.rs', "        match self.current_request.clone() {", "        match self.current_request.take() {", note='F6 returns')
 mut('c14-rep-state-before-await', 'C14', 'src/rep.rs', "        loop {\n            match self.fair_queue.next().await {\n                Some((peer_id, Ok(message))) => match message {", "        self.envelope = None;\n        loop {\n            match self.fair_queue.next().await {\n                Some((peer_id, Ok(message))) => match message {", note='REP forgets the stored envelope when recv is merely started')
+mut('c14-fq-stale-waker', 'C14', 'src/fair_queue.rs', "                inner.waker = Some(cx.waker().clone());\n", "                if inner.waker.is_none() { inner.waker = Some(cx.waker().clone()); }\n", note='a waker left by an abandoned recv is kept: the new waiter is never woken')
+mut('c14-fq-pending-not-put-back', 'C14', 'src/fair_queue.rs', "                Poll::Pending => {\n                    let mut inner = fair_queue.inner.lock();\n                    inner.streams.insert(event.key, io_stream);\n                    continue;", "                Poll::Pending => {\n                    continue;", note='a stream that was merely not ready is dropped from the queue')
+mut('c14-fq-wrong-key', 'C14', 'src/fair_queue.rs', "                    inner.streams.insert(event.key, io_stream);\n                    return Poll::Ready(item);", "                    return Poll::Ready(item);", note='stream that yielded an item is not put back')
 # ---------------------------------------------------------------- harmless edits (must stay exit 0)
 mut('h-rename-local', 'C01', 'src/codec/zmq_codec.rs', "let flags = src.get_u8();\n\n                    let frame = Frame {\n                        command: (flags & 0b0000_0100) != 0,\n                        long: (flags & 0b0000_0010) != 0,\n                        more: (flags & 0b0000_0001) != 0,", "let fl = src.get_u8();\n\n                    let frame = Frame {\n                        command: (fl & 0b0000_0100) != 0,\n                        long: (fl & 0b0000_0010) != 0,\n                        more: (fl & 0b0000_0001) != 0,", expect='ok')
 mut('h-reorder-independent', 'C02', 'src/codec/zmq_codec.rs', "                    self.state = DecoderState::FrameHeader;\n                    self.waiting_for = 1;\n                    if frame.command {", "                    self.waiting_for = 1;\n                    self.state = DecoderState::FrameHeader;\n                    if frame.command {", expect='ok')
@@ -96,6 +99,7 @@ mut('h-req-rename', 'C08', 'src/req.rs', "next_peer_id", "candidate", expect='ok
 mut('h-rep-early-return-style', 'C07', 'src/rep.rs', "                        if at == m.len() {", "                        if at >= m.len() {", expect='ok', note='equivalent guard')
 mut('h-router-comment', 'C09', 'src/router.rs', "                    message.push_front(peer_id.into());", "                    // label with the sender\n                    message.push_front(peer_id.into());", expect='ok')
 mut('h-rr-rename', 'C10', 'src/backend.rs', "send_result", "outcome", expect='ok')
+mut('h-fq-rename', 'C14', 'src/fair_queue.rs', 'io_stream', 'checked_out', expect='ok')
 mut('h-compat-local', 'C04', 'src/lib.rs', "        let row_index = *self as usize;\n        let col_index = other as usize;\n        COMPATIBILITY_MATRIX[row_index * 12 + col_index] != 0", "        let row = *self as usize;\n        let col = other as usize;\n        COMPATIBILITY_MATRIX[row * 12 + col] != 0", expect='ok')
 
 
